@@ -266,11 +266,6 @@ func run(raw json.RawMessage) (common.Case, error) {
 		}
 		metas = append(metas, m)
 	}
-	for i := 1; i < len(metas); i++ {
-		if metas[i].MinTime <= metas[i-1].MinTime && !sameChunk(in.Chunks[i], in.Chunks[i-1]) {
-			return c, fmt.Errorf("chunks must have strictly increasing MinTime (or repeat the previous chunk exactly)")
-		}
-	}
 	nser := 0
 	ser := make([]int, len(metas))
 	for i := range metas {
@@ -283,6 +278,20 @@ func run(raw json.RawMessage) (common.Case, error) {
 		}
 		if ser[i]+1 > nser {
 			nser = ser[i] + 1
+		}
+	}
+	// The model takes the chunks in the order the heap pops them. That order is
+	// unambiguous when (MinTime, MaxTime) strictly increases, when a chunk repeats the
+	// previous one exactly, and for the first chunks of series 0 and series 1 with the
+	// same time range (container/heap keeps the one pushed first at the root).
+	for i := 1; i < len(metas); i++ {
+		a, b := metas[i-1], metas[i]
+		switch {
+		case a.MinTime < b.MinTime || (a.MinTime == b.MinTime && a.MaxTime < b.MaxTime):
+		case sameChunk(in.Chunks[i], in.Chunks[i-1]):
+		case i == 1 && a.MinTime == b.MinTime && a.MaxTime == b.MaxTime && ser[0] == 0 && ser[1] == 1:
+		default:
+			return c, fmt.Errorf("chunk %d: pop order of the heap would be ambiguous", i)
 		}
 	}
 	var series []storage.ChunkSeries
@@ -576,6 +585,13 @@ func gen(r *rand.Rand, tier string, n int) []any {
 		}
 		for range in.Chunks {
 			in.Series = append(in.Series, r.Intn(nser))
+		}
+		if r.Intn(8) == 0 && len(in.Chunks) >= 1 && len(in.Chunks) < 12 {
+			// two replicas downsampled on the same grid: same timestamps, other values;
+			// the first chunks of series 0 and 1
+			twin := mkChunk(r, in.Chunks[0].Ts)
+			in.Chunks = append([]encChunk{in.Chunks[0], twin}, in.Chunks[1:]...)
+			in.Series = append([]int{0, 1}, in.Series[1:]...)
 		}
 		switch r.Intn(20) {
 		case 0: // an aggregate absent in every chunk
